@@ -76,6 +76,12 @@ def run(ctx):
     extra = []
     for k, (mname, A) in enumerate(cm * 4):
         extra.append((('sa-coarse8', lambda A_: pyamg.smoothed_aggregation_solver(A_, max_coarse=8), 'sym'), (mname, A)))
+    # the same complex Hermitian problems (and a real one) stored in 2x2 blocks: the BSR relaxation kernels
+    for k, (mname, A) in enumerate((cm * 3)[:3] + [m for m in mats if m[0] == 'poisson2d-6x5'] * 2):
+        extra.append((('sa-bsr2', lambda A_: pyamg.smoothed_aggregation_solver(sp.bsr_array(sp.csr_array(A_), blocksize=(2, 2)), max_coarse=4), 'sym'),
+                      (mname + '/bsr2', A)))
+    one = [b for b in hier.builders() if b[0] == 'onelevel'][0]
+    extra += [(one, m) for m in mats[:3]]
     combos = extra + list(combos)
     for ci, ((bname, f, _), (mname, A)) in enumerate(combos):
         np.random.seed(ctx.seed)
@@ -85,6 +91,20 @@ def run(ctx):
             continue
         nlev = len(ml.levels)
         if nlev < 2:
+            # a one-level hierarchy is a direct solve: from any guess and any right-hand side the error is gone after one call
+            A1 = hier.dense_of(ml.levels[0].A)
+            n1 = A1.shape[0]
+            b1 = np.array([rng.uniform(-1, 1) for _ in range(n1)]).astype(A1.dtype)
+            x01 = np.array([rng.uniform(-1, 1) for _ in range(n1)]).astype(A1.dtype)
+            xs1 = np.linalg.solve(A1, b1)
+            x11 = ml.solve(b1, x0=x01, maxiter=1, tol=1e-300)
+            e0_ = np.sqrt(abs(np.vdot(xs1 - x01, A1 @ (xs1 - x01))))
+            e1_ = np.sqrt(abs(np.vdot(xs1 - x11, A1 @ (xs1 - x11))))
+            ctx.case((bname, mname, 'one-level'), False)
+            ctx.count('one-level')
+            if _nn(e1_) > e0_ * (1 + 1e-9):
+                ctx.fail('cycle-increases-energy/one-level', 'one-level hierarchy, b != 0, x0 != 0: energy error %.3g -> %.3g' % (e0_, e1_),
+                         dict(builder=bname, matrix=mname, levels=1))
             continue
         A0 = hier.dense_of(ml.levels[0].A)
         cplx = np.iscomplexobj(A0)
